@@ -202,6 +202,8 @@ class Verifier(Interp):
         fn_label = c.short
         self.spec_extra = {}
         stats = dict(paths=0, exits=0)
+        if c.options.get("refines"):
+            return self.verify_refinement(c, node, sha, globs, owner)
 
         def body():
             S = Setup(self)
@@ -292,6 +294,92 @@ class Verifier(Interp):
         stats["exits"] = self.exits
         return dict(key=c.key, sha256=sha, stats=stats, cover={"pre": True, "post": bool(self.cover.get("post"))})
 
+    # ------------------------------------------------------ contract refinement
+    def verify_refinement(self, c, node, sha, globs, owner):
+        """CONTRACT REFINEMENT.  The contract `c` (written in the vocabulary of the property that uses it) is not checked
+        against the body of the function but against another contract `base` of the SAME function, the one of property
+        options["refines"], which is verified against the body there:
+            (a) requires(c)                     ==>  requires(base)    obligations <fn>/refines:<P>/pre/<label of base>
+            (b) requires(c) and ensures(base)   ==>  ensures(c)        obligations <fn>/refines:<P>/post/<label of c>
+        for arbitrary arguments (c's setup) and an arbitrary result of the declared shape; base may modify nothing that c
+        does not declare.  options["refine_link"] = dict(entry=fn(E, vars), exit=fn(E, vars, result)) may DEFINE ghost
+        symbols of one vocabulary from the other (definitional extensions only: the authors list them in `assumptions`).
+        With base's own proof this is a proof of c, which is then used at call sites like any verified contract."""
+        from .engine import Oblig
+        from .loops import havoc_value
+
+        ref = c.options["refines"]
+        alts = getattr(self.registry, "alts", {}).get(c.key, [])
+        bases = [x for x in alts if x.prop == ref and x is not c and not x.trusted and not x.options.get("refines")]
+        if len(bases) != 1:
+            raise Unsupported(f"refinement: no verified contract of {c.key} under {ref}")
+        base = bases[0]
+        if not set(base.modifies) <= set(c.modifies) or any(k not in c.raises for k, v in base.raises.items() if v is not None):
+            raise Unsupported("refinement: the base contract modifies / raises more than the refined one declares")
+        link = c.options.get("refine_link") or {}
+        fn_label = c.short
+        tag = f"{fn_label}/refines:{ref}"
+
+        def body():
+            S = Setup(self)
+            self.call_log, self._site_n, self.spec_extra, self.entry_uids = [], 0, {}, set()
+            setup = dict(variant_setup(S)) if variant_setup else {}
+            func = Func(node, None, globs, c.key, defcls=owner)
+            fr = Frame(globs=globs, func=func)
+            for gname, (doms, rng) in c.ghost_funcs.items():
+                self.spec_extra[gname] = _GhostFn(z3.Function(f"{gname}", *[sort_of(d) for d in doms], sort_of(rng)), doms, rng)
+            self.spec_extra.update(setup.pop("__ghost__", {}))
+            self.bind_named(func, setup, fr)
+            vars = dict(fr.vars)
+            for j, cl in enumerate(c.requires):
+                lab, text = split_label(cl, f"pre{j}")
+                self.assume(eval_clause(self, text, vars, globs, extra=self.spec_extra))
+            if ("pre", self.variant) not in self.cover:
+                self.cover[("pre", self.variant)] = True
+                self.covers.append(Oblig(f"{self.prop}/{fn_label}/cover/precondition-reachable", list(self.pc), z3.BoolVal(False), "cover", self.variant))
+            self.top_old = snapshot(vars)
+            self.entry_uids = _collect_uids(vars)
+            if c.ghost_entry is not None:
+                c.ghost_entry(self, self.top_old)
+            if link.get("entry"):
+                link["entry"](self, vars)
+            for j, cl in enumerate(base.requires):  # (a)
+                lab, text = split_label(cl, f"pre{j}")
+                self.prove(f"{tag}/pre/{lab}", eval_clause(self, text, vars, globs, extra=self.spec_extra), "precondition")
+            old = snapshot(vars)
+            self.call_log.append((base.short, dict(vars)))
+            for m in base.modifies:
+                havoc_value(self, self._eval_in(m, vars, globs))
+            if base.ghost_entry is not None:
+                base.ghost_entry(self, old)
+            res = self.make_result(base, fr)
+            if not _same_shape(res, self.make_result(c, fr)):
+                raise Unsupported("refinement: the two contracts declare different result shapes")
+            vars["result"] = res
+            self.call_log[-1][1]["__result__"] = res
+            for j, cl in enumerate(base.ensures):
+                lab, text = split_label(cl, f"post{j}")
+                if isinstance(text, str) and ("ncalls(" in text or "callarg(" in text):
+                    continue
+                self.assume(eval_clause(self, text, vars, globs, old_vars=old, extra=self.spec_extra))
+            if link.get("exit"):
+                link["exit"](self, vars, res)
+            self.exits += 1
+            for j, cl in enumerate(c.ensures):  # (b)
+                lab, text = split_label(cl, f"post{j}")
+                self.prove(f"{tag}/post/{lab}", eval_clause(self, text, vars, globs, old_vars=self.top_old, extra=self.spec_extra), "postcondition")
+            self.cover["post"] = True
+
+        variants = c.variants if c.variants else {"": c.setup}
+        npaths = 0
+        for vname, variant_setup in variants.items():
+            self.variant = vname
+            self.explore(body)
+            npaths += self.paths
+        self.paths = npaths
+        self.assumptions.add(f"contract refinement: the {c.prop} contract of {c.key} is derived from the contract proved under {ref} (obligations {tag}/...)")
+        return dict(key=c.key, sha256=sha, stats=dict(paths=npaths, exits=self.exits), cover={"pre": True, "post": bool(self.cover.get("post"))})
+
     def bind_named(self, func, params, fr):
         a = func.node.args
         names = [p.arg for p in a.posonlyargs + a.args + a.kwonlyargs]
@@ -325,6 +413,17 @@ class _GhostFn:
         zs = [to_z3(a, d) for a, d in zip(args, self.doms)]
         r = self.f(*zs)
         return eng.sbool(r) if self.rng == "bool" else Sym(r, self.rng)
+
+
+def _same_shape(a, b):
+    """two declared result shapes agree: same nesting, same scalar kinds, arrays of the same kind and length"""
+    if isinstance(a, (tuple, list)) or isinstance(b, (tuple, list)):
+        return isinstance(a, (tuple, list)) and isinstance(b, (tuple, list)) and len(a) == len(b) and all(_same_shape(x, y) for x, y in zip(a, b))
+    if type(a) is SArr and type(b) is SArr:
+        return a.kind == b.kind and z3.is_true(z3.simplify(zint(a.n) == zint(b.n)))
+    if isinstance(a, Sym) and isinstance(b, Sym):
+        return a.kind == b.kind
+    return a is None and b is None
 
 
 def _collect_uids(v, acc=None, seen=None):
